@@ -108,12 +108,12 @@ let precq_check line =
 let dispatch mode line =
   match mode with
   | "tsc" | "tscd" | "tscs" -> tsc line
-  | "dur" -> dur line
+  | "dur" | "durl" -> dur line
   | "osd" | "oss" -> osd line
   | "osd.sb" | "oss.sb" -> osd_check line
   | "prec" -> prec line
   | "tsc.sb" | "tscd.sb" | "tscs.sb" -> tsc_check line
-  | "dur.sb" -> dur_check line
+  | "dur.sb" | "durl.sb" -> dur_check line
   | "prec.sb" -> prec_check line
   | "precq" -> precq line
   | "precq.sb" -> precq_check line
